@@ -19,6 +19,7 @@ pub const S9_DECODE_LITERALS_GUARD: u32 = 1 << 6;
 pub const S10_DICT_TABLES: u32 = 1 << 7;
 pub const S11_EXEC_SINK: u32 = 1 << 8;
 pub const S12_COPY_CONTRACT: u32 = 1 << 9;
+pub const S13_EFW_MODEL: u32 = 1 << 10;
 
 pub static mut STUB_MASK: u32 = 0;
 /// scratch word a stub may use to pick its behaviour (e.g. the fixed capacity for S1)
